@@ -47,5 +47,6 @@ for d, ver, res in rows:
     demo = "%s / %s" % (m.group(1), m.group(2)) if m else ("- (no demo; the original defect)" if not agent else ver)
     tests = m.group(3) if m else "-"
     out.append("| %s | %s | %s | %s | %s | %s |" % (name, pid, needs[:160].replace("|", "/"), tests, demo, "**caught**" if caught else "MISSED: " + res[:80].replace("|", "/")))
-open(os.path.join(V, "README.md"), "w").write("\n".join(out) + "\n")
+tail = open(os.path.join(V, "README.tail.md")).read() if os.path.exists(os.path.join(V, "README.tail.md")) else ""
+open(os.path.join(V, "README.md"), "w").write("\n".join(out) + "\n" + tail)
 print("\n".join(out[-len(rows):]))
